@@ -154,7 +154,10 @@ CHECKS = {'C01': {'level': 'exploration',
                  'full-range, edge-biased integers (all 64 bits in use: a filter that goes through float64 or compares in another width decides such '
                  'rows wrongly) - Sum and Avg are then not judged for the integer columns (a wrapped sum cannot be told from a fitting one), the '
                  'filters, Count, Range, Min and Max are | action dropIndex (round 8): dropped index names come back on another column or with '
-                 'another rule; one drop in three goes through DropColumn(indexName)',
+                 'another rule; one drop in three goes through DropColumn(indexName) | round 10: a sign-bit predicate (tells -0 from +0); one stored '
+                 'float in four is a zero, half of them negative (also in the prefilled rows of every machine), and a third of the value filters on '
+                 'float columns ask for the sign; Min/Max of floats are compared by value; one query in three obtains (and reads) a typed column '
+                 'accessor BEFORE its filter chain',
          'assumptions': ['aggregate-safe values: sums are exact in any order; Sum/Avg are not judged when the true sum does not fit the column type '
                          '(counted)',
                          'a fresh Union(missing, ...) is not generated (the text does not define it); WithValue is not applied to index names; '
